@@ -4,6 +4,7 @@ import (
 	"go/ast"
 	"go/token"
 	"strconv"
+	"strings"
 )
 
 // AuditLog: logging/{log_entry_parser.go,logging.go,audit_log.go,integrity_verifier.go}.
@@ -195,6 +196,9 @@ func genAuditLog() {
 			fail("%s: processLogFile: neither bufio.NewScanner nor bufio.NewReader (or both)", lg)
 		}
 		lf.def("lineReader", "String", strconv.Quote(kind), lg+": processLogFile reads lines with a bufio.Scanner (64 KiB limit) or a bufio.Reader (no limit)")
+		loop, trims := readerLoopBody(lg, fd, kind)
+		lf.def("readerLoop", "List String", strList(loop), lg+": processLogFile – the statements of the read loop IN ORDER: `read` (line, readErr := reader.ReadString('\\n')), `return-err` (a read error other than io.EOF ends the function), `return-any-err` (any read error incl. io.EOF ends it), `deliver` (a non-empty line is sent to the output channel), `return-eof` (io.EOF ends the function). ReadString returns the bytes read so far TOGETHER with io.EOF, so `deliver` has to come before `return-eof` for an unterminated last line to be handed to the verifier")
+		lf.def("readerTrims", "List String", strList(trims), lg+": processLogFile – the suffixes removed from a line before it is delivered (strings.TrimSuffix), in order")
 	}
 	lf.def("verifierSkips", "List String", strList(skipped), iv+": VerifyIntegrityCheck – parse errors after which the line is skipped (`continue`)")
 	genAuditLogJSON(lf, prs, lg)
@@ -289,4 +293,111 @@ func callsSel2(fd *ast.FuncDecl, fn string) bool {
 		return true
 	})
 	return found
+}
+
+// readerLoopBody classifies the statements of processLogFile's `for { … }` loop (bufio.Reader variant) in order and
+// returns the suffixes trimmed from a delivered line. For the bufio.Scanner variant the loop has another shape
+// (for scanner.Scan() { deliver }): it is reported as ["scan", "deliver"].
+func readerLoopBody(lg string, fd *ast.FuncDecl, kind string) (loop, trims []string) {
+	var fs *ast.ForStmt
+	nFor := 0
+	ast.Inspect(fd, func(n ast.Node) bool {
+		if f, ok := n.(*ast.ForStmt); ok {
+			if nFor == 0 {
+				fs = f
+			}
+			nFor++
+			return false
+		}
+		return true
+	})
+	if fs == nil || nFor != 1 {
+		fail("%s: processLogFile: expected exactly one for loop, found %d", lg, nFor)
+	}
+	collectTrims := func(body *ast.BlockStmt) {
+		ast.Inspect(body, func(n ast.Node) bool {
+			if c, ok := n.(*ast.CallExpr); ok && len(c.Args) == 2 {
+				if s, ok := c.Fun.(*ast.SelectorExpr); ok && s.Sel.Name == "TrimSuffix" {
+					bl, ok := c.Args[1].(*ast.BasicLit)
+					if !ok || bl.Kind != token.STRING {
+						fail("%s: processLogFile: TrimSuffix with a non-literal suffix %s", lg, render(c.Args[1]))
+					}
+					v, err := strconv.Unquote(bl.Value)
+					if err != nil {
+						fail("%s: processLogFile: %v", lg, err)
+					}
+					trims = append(trims, v)
+				} else if ok && (s.Sel.Name == "TrimSpace" || s.Sel.Name == "TrimRight" || s.Sel.Name == "Trim" || s.Sel.Name == "TrimFunc") {
+					fail("%s: processLogFile: the line is trimmed with %s – not modelled", lg, render(c.Fun))
+				}
+			}
+			return true
+		})
+	}
+	hasSend := func(body *ast.BlockStmt) bool {
+		found := false
+		ast.Inspect(body, func(n ast.Node) bool {
+			if _, ok := n.(*ast.SendStmt); ok {
+				found = true
+			}
+			return true
+		})
+		return found
+	}
+	if kind == "scanner" {
+		if !hasSend(fs.Body) {
+			fail("%s: processLogFile: the scanner loop does not send to the output channel", lg)
+		}
+		collectTrims(fs.Body)
+		return []string{"scan", "deliver"}, trims
+	}
+	if fs.Init != nil || fs.Cond != nil || fs.Post != nil {
+		fail("%s: processLogFile: the read loop is expected to be `for { … }`, found `for %s; %s; %s`", lg, render(fs.Init), render(fs.Cond), render(fs.Post))
+	}
+	for _, st := range fs.Body.List {
+		switch s := st.(type) {
+		case *ast.AssignStmt:
+			if len(s.Lhs) == 2 && len(s.Rhs) == 1 && render(s.Lhs[0]) == "line" && render(s.Lhs[1]) == "readErr" && strings.HasSuffix(render(s.Rhs[0]), ".ReadString('\\n')") {
+				loop = append(loop, "read")
+				continue
+			}
+		case *ast.IfStmt:
+			if s.Init == nil && s.Else == nil && len(s.Body.List) > 0 {
+				cond := render(s.Cond)
+				ret, isRet := s.Body.List[len(s.Body.List)-1].(*ast.ReturnStmt)
+				switch {
+				case isRet && len(s.Body.List) == 1 && cond == "readErr == io.EOF" && len(ret.Results) == 1 && render(ret.Results[0]) == "nil":
+					loop = append(loop, "return-eof")
+					continue
+				case isRet && len(s.Body.List) == 1 && (cond == "readErr != nil && readErr != io.EOF" || cond == "readErr != io.EOF && readErr != nil") && len(ret.Results) == 1 && render(ret.Results[0]) == "readErr":
+					loop = append(loop, "return-err")
+					continue
+				case isRet && len(s.Body.List) == 1 && cond == "readErr != nil" && len(ret.Results) == 1 && render(ret.Results[0]) == "readErr":
+					loop = append(loop, "return-any-err")
+					continue
+				case !isRet && cond == "len(line) > 0" && hasSend(s.Body):
+					// nothing in the branch may leave the loop
+					ast.Inspect(s.Body, func(n ast.Node) bool {
+						switch n.(type) {
+						case *ast.ReturnStmt, *ast.BranchStmt:
+							fail("%s: processLogFile: the delivering branch contains %s – not modelled", lg, render(n))
+						}
+						return true
+					})
+					collectTrims(s.Body)
+					loop = append(loop, "deliver")
+					continue
+				}
+			}
+		}
+		fail("%s: processLogFile: statement of the read loop not understood: %s", lg, render(st))
+	}
+	cnt := map[string]int{}
+	for _, l := range loop {
+		cnt[l]++
+	}
+	if cnt["read"] != 1 || loop[0] != "read" || cnt["deliver"] != 1 || cnt["return-eof"]+cnt["return-any-err"] < 1 {
+		fail("%s: processLogFile: the read loop is expected to read once (first), deliver once and end on io.EOF; found %v", lg, loop)
+	}
+	return loop, trims
 }
